@@ -128,3 +128,28 @@ func verifH_C06_multipart_arrays() {
 	verifAssert((err == nil) == ok, "C06 multipart arrays: an array property decodes to one item per part (also for a single part) and is validated as that array")
 	verifReach("end")
 }
+
+//verif:harness id=C06 tier=quick,thorough witness=end,accepted,rejected bounds="application/json bodies against an enum whose members are an array, an object, a string and a number ({e: {enum: [[1,2], {k: 1}, s, 3]}}): ten concrete bodies (each member, the array with 2.0 for 2, near misses of each): accepted iff e equals a member (numbers compared by value)"
+func verifH_C06_json_enum_members() {
+	schema := &openapi3.SchemaRef{Value: &openapi3.Schema{Type: &openapi3.Types{"object"}, Properties: openapi3.Schemas{
+		"e": {Value: &openapi3.Schema{Enum: []any{[]any{1.0, 2.0}, map[string]any{"k": 1.0}, "s", 3.0}}}}}}
+	bodies := []struct {
+		text string
+		ok   bool
+	}{
+		{`{"e":[1,2]}`, true}, {`{"e":{"k":1}}`, true}, {`{"e":"s"}`, true}, {`{"e":3}`, true}, {`{"e":[1,2.0]}`, true}, {`{"e":3.0}`, true},
+		{`{"e":[1,3]}`, false}, {`{"e":[1,2,3]}`, false}, {`{"e":{"k":2}}`, false}, {`{"e":"t"}`, false}, {`{"e":4}`, false}, {`{"e":[1,"2"]}`, false},
+	}
+	b := bodies[verifChoose("body", len(bodies))]
+	rb := &openapi3.RequestBody{Required: true, Content: openapi3.Content{"application/json": &openapi3.MediaType{Schema: schema}}}
+	op := &openapi3.Operation{RequestBody: &openapi3.RequestBodyRef{Value: rb}}
+	input := verifBodyInput(op, "application/json", b.text, true, &Options{MultiError: verifNondetBool("multi")})
+	err := ValidateRequestBody(context.Background(), input, rb)
+	if err == nil {
+		verifReach("accepted")
+	} else {
+		verifReach("rejected")
+	}
+	verifAssert((err == nil) == b.ok, "C06 JSON enum members: a body is accepted iff the value equals a member of the enum, whatever the member's JSON type")
+	verifReach("end")
+}
